@@ -23,6 +23,40 @@ CHECKS['C06'] = dict(
     note=TRUST + 'quick tier proves the ponder-on case at the default tunable values, thorough with all tunables symbolic (about 3 min). Not decided: wall-clock delivery (polling interval, stop path, threads, MaxNPS) - needs execution.',
     technique='CBMC function contracts on extracted real code (dfcc), floating point encoded bit-precisely, SAT back end',
     design='4.4')
+CHECKS['C02'] = dict(
+    text='Deductive proof (CBMC contracts, dfcc) on the extracted text of position.hpp/.cpp and material.hpp: delta contracts for setPiece/clearPiece/movePieceNotPawn/setWhiteMove/setCastleMask/setEpSquare '
+         '(every incremental field changes by exactly the delta of its from-scratch fold, represented by ghost model fields), makeMove against the rules of chess for every well-formed position and every structurally valid move '
+         '(board after the move, side, castling rights, en-passant square, clocks, undo record; bitboards and all incremental attributes consistent again), unMakeMove(makeMove(p)) bit-identical to p (real bodies of both), '
+         'MatId add/remove without overflow for every material configuration legal play can produce, compact serialisation format, staticInitialize table, bookHash/historyHash index in range.',
+    note=TRUST + 'Zobrist key tables and piece values are uninterpreted functions (arbitrary tables; row EMPTY pinned to zero). Fold ghosts: the meta-invariant ghost == from-scratch fold rests on the single-square update lemma '
+         '(commutativity/associativity of xor and modular addition) which is not machine-checked yet, and on the pinned list of functions that write squares[]. Induction over move histories is a paper argument. '
+         'quick tier: mutators, makeMove, MatId, serialisation; thorough adds the make/unmake identity (about 18 min). Not decided: FEN text round trip (std::string), deSerialize/computeZobristHash loops, Position copy/assignment.',
+    technique='CBMC function contracts on extracted real code (dfcc) with ghost model fields and spliced ghost updates, SAT back end',
+    design='4.2')
+CHECKS['C11'] = dict(
+    text='Deductive proof (CBMC contracts) on the extracted text of Search::canClaimDrawRep (unbounded loop closed by a loop contract; ghost witnesses spliced after reps++), canClaimDraw50, the draw tests at the head of negaScout (fragment) '
+         'and Game::insufficientMaterial: for every history list, length, parity, clock and first-new index a repetition is claimed exactly when the window rule says so (never missed, never invented), '
+         '50 moves score exactly a draw unless the side to move is checkmated (then the mated score), dead material predicate equals its definition.',
+    note=TRUST + 'Equal Zobrist hash is taken as the same position (A-ZOBRIST). Assumed contracts: logAndReturn returns its score at the draw tests; the legal-move count stands for MoveGen (C01). '
+         'Not decided: console draw-claim text handling (Game::handleDrawCmd, getGameState), construction of the history list in setupPosition.',
+    technique='CBMC function and loop contracts on extracted real code (dfcc), SAT back end',
+    design='4.7')
+CHECKS['C12'] = dict(
+    text='Partial: installation safety only. Deductive proof (CBMC contracts) of the class invariant of TranspositionTable w.r.t. a resident on-demand tablebase on the extracted text of updateTB and the head of clear(): '
+         'generator installed => generation completed and usedSize == tableSize - 5MB/16; not installed => usedSize == tableSize; every return path; updateTB returns true only with a complete table; '
+         'TB byte region disjoint from hash entries (lemma); setUsedSize loop contract.',
+    note=TRUST + 'TBGenerator::generate/probeDTM are stubs with assumed contracts (generate reports completion through its return value). NOT decided: exactness of the generated distances (retrograde analysis over millions of entries), '
+         'indexing/symmetry lemmas of TBIndex, probe score conversion - none of this is claimed.',
+    technique='CBMC function contracts (class invariant) on extracted real code (dfcc), SAT back end',
+    design='4.8')
+CHECKS['C20'] = dict(
+    text='Partial. Deductive proof (CBMC contracts, dfcc) on the extracted text of bitSet.hpp (both instantiations used by the solver: BitSet<64,-16> and BitSet<192,0>, 17 operations each) against a set spec '
+         '(ghost element + exact word-level facts), of CspSolver::makeEven/makeOdd/addMinVal/addMaxVal (stored domain is exactly the intersection) and getBitVal (returns a member of the domain for every preference order; '
+         'minimum for SMALL, maximum for LARGE).',
+    note=TRUST + 'NOT decided: makeArcConsistent (ghost-solution invariant written and cut mechanically; base and exit obligations close, the inductive step did not within 15 min) and solveRecursive/solve; '
+         'therefore "reports solvable exactly when a solution exists" is not decided by this check. Data bounds of the (unclaimed) solver groups: 10 variables, 25 constraints = the quantifier of C20.',
+    technique='CBMC function contracts on extracted real code (dfcc; template instantiated by the extractor), SAT back end',
+    design='4.11')
 NOT_APPLICABLE = {
     'C01': 'planned (DESIGN 4.1) but not built yet in this round; no claim until its first layer is green',
     'C02': 'planned (DESIGN 4.2) but not built yet',
